@@ -6,7 +6,7 @@ import ast
 
 from sa.cfg import cfg_of
 from sa.facts import assignments_to, base_name, is_status, result_sites
-from sa.guards import GuardView, closure_nonlocal_writes, names_in
+from sa.guards import GuardView, atom_of, closure_nonlocal_writes, names_in
 from sa.index import AnalysisError, Func, own_nodes
 from sa.report import Ctx
 
@@ -325,6 +325,30 @@ def check_binary_add(ctx: Ctx, oid: str):
                 continue
             bad = got
             break
+    # polarity: `implications(l)` reads neg[l] for a positive literal that became false and pos[-l] for a negative
+    # one; `add` has to file under the same list and index
+    gvb = GuardView(cfg)
+    wrong = []
+    n_app = 0
+    for n in own_nodes(f.node):
+        if isinstance(n, ast.Expr) and filed(n) is not None:
+            n_app += 1
+            key, _el = filed(n)
+            tgt = n.value.func.value  # self.neg[lit] / self.pos[-lit]
+            lst = tgt.value.attr if isinstance(tgt.value, ast.Attribute) else "?"
+            idx = ast.unparse(tgt.slice)
+            at = gvb.guard_atoms(cfg.node_of(n), stable_only=False)
+            pos_lit = atom_of(f"{key} > 0") in at
+            neg_lit = atom_of(f"{key} <= 0") in at or atom_of(f"{key} < 0") in at
+            ok_ = (pos_lit and lst == "neg" and idx == key) or (neg_lit and lst == "pos" and idx == f"-{key}")
+            if not ok_:
+                wrong.append(n)
+    im = m.funcs.get("BinaryImplications.implications")
+    ctx.require(im is not None, "BinaryImplications.implications not found")
+    fl = [p_ for p_ in im.params if p_ != "self"][0]
+    rets = [r for r in own_nodes(im.node) if isinstance(r, ast.Return)]
+    ok_read = len(rets) == 1 and ast.unparse(rets[0].value) == f"self.neg[{fl}] if {fl} > 0 else self.pos[-{fl}]"
+    ctx.ob(oid, "R18 SIBLING-AGREEMENT (expression)", f, "add files a pair under neg[l] for a positive key literal and under pos[-l] for a negative one - the lists implications() reads when that literal becomes false", n_app == 4 and not wrong and ok_read, f"`{ast.unparse(wrong[0])[:60] if wrong else ''}` (or the reader `{ast.unparse(rets[0].value)[:60] if rets else '?'}`): a pair filed under the other list is looked up when the literal becomes true, never when it becomes false", node=wrong[0] if wrong else f.node)
     ctx.ob(oid, "R25 REGISTRATION-TABLE", f, "BinaryImplications.add files both directions of the clause on every path (no pair of literals is left out)", bool(paths) and bad is None, f"a path through add files {bad}: a binary clause that is not filed is in no watch list either, so nothing enforces it", node=f.node)
 
 
